@@ -4,6 +4,7 @@ package main
 // random and templated histories. Emits one JSON case per init / shift / scan.
 
 import (
+	apiequality "k8s.io/apimachinery/pkg/api/equality"
 	"encoding/json"
 	"strconv"
 	"fmt"
@@ -278,6 +279,21 @@ func (h *Hist) scan(faults map[int]bool, failDesc map[string]bool) (string, erro
 		}
 		time.Sleep(4 * time.Millisecond)
 	}
+	if faults[0] {
+		// a failing refresh costs 5 s of real sleep per retry (up to two): a lock that expires during those seconds would be
+		// seen as held by the model (which evaluates the scan at its nominal start) and as released by the code — keep such
+		// scans free of the refresh failure
+		now := time.Now()
+		for _, c := range h.cfgs {
+			st, _ := h.ctl.VerifGroupState(c.Name)
+			if st.LockTimeSet {
+				rem := int64(c.ScaleUpCoolDownPeriodDuration()) - (now.UnixNano() - st.LockTimeNs)
+				if rem > 0 && rem <= int64(12*time.Second) {
+					delete(faults, 0)
+				}
+			}
+		}
+	}
 	frozen := time.Now()
 	sec := frozen.Unix()
 	h.mock.FreezeAt(time.Unix(sec, 0))
@@ -327,6 +343,15 @@ func (h *Hist) scan(faults map[int]bool, failDesc map[string]bool) (string, erro
 		h.rec.FailDesc[k] = v
 	}
 	h.rec.Conflict = conflict
+	// informer caches hand out shared objects: the controller must treat them as read-only
+	snapNodes := make([]*v1.Node, len(h.nodeL.nodes))
+	for i, n := range h.nodeL.nodes {
+		snapNodes[i] = n.DeepCopy()
+	}
+	snapPods := make([]*v1.Pod, len(h.podL.pods))
+	for i, p := range h.podL.pods {
+		snapPods[i] = p.DeepCopy()
+	}
 	h.buildErr = nil
 	var runErr error
 	outcome := protect(func() error { runErr = h.ctl.RunOnce(); return runErr })
@@ -353,6 +378,44 @@ func (h *Hist) scan(faults map[int]bool, failDesc map[string]bool) (string, erro
 		}
 	}
 	h.ctl.VerifQuantise(frozen, frozen)
+	mutated := []string{}
+	for i, n := range h.nodeL.nodes {
+		if !apiequality.Semantic.DeepEqual(n, snapNodes[i]) {
+			mutated = append(mutated, "node/"+snapNodes[i].Name)
+		}
+	}
+	for i, p := range h.podL.pods {
+		if !apiequality.Semantic.DeepEqual(p, snapPods[i]) {
+			mutated = append(mutated, "pod/"+snapPods[i].Name)
+		}
+	}
+	// what each group's own listers (the objects the controller uses) return now
+	lists := []PObsList{}
+	if outcome == "ok" && h.ctl.Client != nil {
+		h.podL.quiet = true
+		for _, c := range h.cfgs {
+			l, ok := h.ctl.Client.Listers[c.Name]
+			if !ok || l == nil {
+				continue
+			}
+			ol := PObsList{Name: c.Name, Pods: []string{}, Nodes: []string{}}
+			func() {
+				defer func() { recover() }()
+				ps, _ := l.Pods.List()
+				for _, p := range ps {
+					ol.Pods = append(ol.Pods, p.Namespace+"/"+p.Name)
+				}
+				ns, _ := l.Nodes.List()
+				for _, n := range ns {
+					ol.Nodes = append(ol.Nodes, n.Name)
+				}
+			}()
+			sort.Strings(ol.Pods)
+			sort.Strings(ol.Nodes)
+			lists = append(lists, ol)
+		}
+		h.podL.quiet = false
+	}
 	var twin interface{}
 	if h.tw != nil {
 		t := h.tw.t
@@ -418,6 +481,8 @@ func (h *Hist) scan(faults map[int]bool, failDesc map[string]bool) (string, erro
 	if twin != nil {
 		line["twin"] = twin
 	}
+	line["lists"] = lists
+	line["mutated"] = mutated
 	h.emit(line)
 	return outcome, nil
 }
